@@ -330,6 +330,8 @@ class Session:
                 if abs(float(e0[n0]) - float(e1[n1])) > 2e-4 * max(1.0, abs(float(e0[n0]))):
                     ctx.fail('I03.rename', f'estimate of {n} [{algo}]: {float(e0[n0])!r} as {n0}, {float(e1[n1])!r} as {n1}')
                 for col in ('Rob. Std err', 'Std err', 'Rob. t-test'):
+                    if col == 'Rob. t-test' and abs(float(e0[n0])) < 1e-6:
+                        continue   # an estimate that is zero up to the optimiser's tolerance has no determined t ratio
                     v0, v1 = float(p0.loc[n0][col]), float(p1.loc[n1][col])
                     if math.isfinite(v0) and math.isfinite(v1) and max(abs(v0), abs(v1)) < 1e6 \
                             and abs(v0 - v1) > 5e-3 * max(1.0, abs(v0)):
